@@ -9,8 +9,6 @@ HERE = os.path.dirname(os.path.dirname(os.path.abspath(__file__)))
 sys.path.insert(0, HERE)
 
 NOT_APPLICABLE = {
-    'C32': 'PAINT fills exactly the region: a connectivity property of runtime bitmaps; the only-inside-the-viewport '
-           'half is decided under C30; see DESIGN.md section 6',
 }
 PENDING = 'check not built yet in this revision (static rule designed in DESIGN.md section 4)'
 
